@@ -55,6 +55,25 @@ let handle toks =
     Buffer.add_string buf (s_state f0);
     go f0 0 ops;
     Buffer.contents buf
+  | "tracem" :: w :: t :: l :: tn :: fr :: ops ->
+    (* as trace, every op followed by @cert/cert (matching certificates, '-' = none) *)
+    let core = { w = rows_of zrow ';' w; trajs = natl t; locks = list_of_string bool_of_string_ l;
+                 locked = []; traj_num = nat_of_string tn } in
+    let f0 = { core = core; fracs = parse_fracs fr; data = []; steps_done = O } in
+    let buf = Buffer.create 1024 in
+    let parse_certs s = if s = "-" || s = "" then [] else List.map natl (String.split_on_char '/' s) in
+    let rec go f i = function
+      | [] -> ()
+      | o :: r ->
+        let (os, cs) = match String.index_opt o '@' with
+          | Some k -> (String.sub o 0 k, String.sub o (k + 1) (String.length o - k - 1))
+          | None -> (o, "-") in
+        (match step_m f (parse_op os) (parse_certs cs) with
+         | None -> Buffer.add_string buf (" # REJECT@" ^ string_of_int i)
+         | Some f' -> Buffer.add_string buf (" # " ^ s_state f'); go f' (i + 1) r) in
+    Buffer.add_string buf (s_state f0);
+    go f0 0 ops;
+    Buffer.contents buf
   | ["sort"; w; t; l] ->
     let core = { w = rows_of zrow ';' w; trajs = natl t; locks = list_of_string bool_of_string_ l;
                  locked = []; traj_num = O } in
